@@ -66,6 +66,31 @@ impl PatternNode {
     }
   }
 }
+impl PatternNode {
+  /// The longest text that every match must contain: like `fixed_string`, but only named
+  /// leaves count. Unnamed tokens are matched by kind and their text in the source can differ
+  /// from the pattern's (case-insensitive keywords, virtual layout tokens).
+  pub fn required_text(&self) -> Cow<str> {
+    match &self {
+      PatternNode::Terminal {
+        text,
+        is_named: true,
+        ..
+      } => Cow::Borrowed(text),
+      PatternNode::Terminal { .. } | PatternNode::MetaVar { .. } => Cow::Borrowed(""),
+      PatternNode::Internal { children, .. } => children
+        .iter()
+        .map(|n| n.required_text())
+        .fold(Cow::Borrowed(""), |longest, curr| {
+          if longest.len() >= curr.len() {
+            longest
+          } else {
+            curr
+          }
+        }),
+    }
+  }
+}
 impl<'r, D: Doc> From<Node<'r, D>> for PatternNode {
   fn from(node: Node<'r, D>) -> Self {
     convert_node_to_pattern(node)
@@ -158,6 +183,11 @@ impl<L: Language> Pattern<L> {
 
   pub fn fixed_string(&self) -> Cow<str> {
     self.node.fixed_string()
+  }
+
+  /// Text that a source must contain for this pattern to match, see `PatternNode::required_text`.
+  pub fn required_text(&self) -> Cow<str> {
+    self.node.required_text()
   }
 
   /// Get all defined variables in the pattern.
